@@ -6,6 +6,7 @@ package model
 
 import (
 	"fmt"
+	"regexp"
 	"strings"
 
 	"verif/harness/spec"
@@ -21,6 +22,7 @@ type Settings struct {
 	IgnoreUnexported bool   `json:"ignoreUnexported,omitempty"`
 	MatchIgnoreCase  bool   `json:"matchIgnoreCase,omitempty"`
 	UseUnderlying    bool   `json:"useUnderlying,omitempty"`
+	EnumExclude      []string `json:"enumExclude,omitempty"` // "pkgkey.Name" of excluded types
 	Wrap             string `json:"wrap,omitempty"` // "" | errors | using (no influence on convertibility)
 	WrapPkg          string `json:"wrapPkg,omitempty"`
 }
@@ -39,6 +41,9 @@ func (s Settings) Lines() []string {
 	}
 	if s.EnumUnknown != "" {
 		l = append(l, "enum:unknown "+s.EnumUnknown)
+	}
+	for _, e := range s.EnumExclude {
+		l = append(l, "enum:exclude "+e)
 	}
 	if s.IgnoreMissing {
 		l = append(l, "ignoreMissing")
@@ -89,6 +94,8 @@ type Method struct {
 	Fields   map[string]*FieldCfg `json:"fields,omitempty"`
 	AutoMap  []string             `json:"autoMap,omitempty"`
 	EnumMap  map[string]string    `json:"enumMap,omitempty"`
+	// EnumTransform: configs of `enum:transform regex PATTERN REPLACEMENT`
+	EnumTransform []string `json:"enumTransform,omitempty"`
 	Default  *Func                `json:"default,omitempty"`
 	// Roles of the declared parameters in order: source | context | target
 	Roles []string `json:"roles,omitempty"`
@@ -208,6 +215,11 @@ func (c *Conv) EnumMembers(t *spec.T, set Settings) []spec.Const {
 	d := c.Prog.Decl(t)
 	if d == nil {
 		return nil
+	}
+	for _, ex := range set.EnumExclude {
+		if ex == c.Prog.ImportPath(t.Pkg)+":"+t.Name {
+			return nil
+		}
 	}
 	u := c.Prog.Underlying(t)
 	if u.K != spec.KBasic {
@@ -550,8 +562,30 @@ func (st *state) enumRule(src, dst *spec.T) (*Plan, *Reject) {
 		dset[k.Name] = k.Value
 	}
 	var emap map[string]string
+	transformed := map[string]string{}
 	if st.fields != nil && st.ftarget == key(dst) {
 		emap = st.fields.EnumMap
+		for _, cfg := range st.fields.EnumTransform {
+			parts := strings.Split(cfg, " ")
+			if len(parts) != 2 {
+				return nil, reject("enum-transform-config", "%q", cfg)
+			}
+			re, err := regexp.Compile(parts[0])
+			if err != nil {
+				return nil, reject("enum-transform-config", "%q", cfg)
+			}
+			n := 0
+			for _, k := range sm {
+				tk := re.ReplaceAllString(k.Name, parts[1])
+				if _, ok := dset[tk]; ok {
+					transformed[k.Name] = tk
+					n++
+				}
+			}
+			if n == 0 {
+				return nil, reject("enum-transform-empty", "%q maps nothing", cfg)
+			}
+		}
 	}
 	used := map[string]bool{}
 	byValue := map[string]string{} // source value -> target (name or action)
@@ -572,6 +606,8 @@ func (st *state) enumRule(src, dst *spec.T) (*Plan, *Reject) {
 		target, ok := emap[k.Name]
 		if ok {
 			used[k.Name] = true
+		} else if tk, ok := transformed[k.Name]; ok {
+			target = tk
 		} else {
 			target = k.Name
 		}
